@@ -8,6 +8,9 @@ package api
 
 import (
 	"bufio"
+	"crypto/hmac"
+	"crypto/sha256"
+	"encoding/base64"
 	"encoding/json"
 	"io/ioutil"
 	"math/rand"
@@ -108,7 +111,7 @@ func TestVerifGate(t *testing.T) {
 			r.Host = pick("configured", "localhost-name", "foreign", "whitelisted", "empty")
 			r.Origin = pick("none", "own", "foreign", "unparsable", "whitelisted")
 			r.Referer = pick("none", "own", "foreign", "whitelisted")
-			r.Token = pick("valid", "none", "expired", "garbage", "tampered", "older")
+			r.Token = pick("valid", "none", "expired", "garbage", "tampered", "older", "forged-empty-key", "forged-other-key")
 			r.Ctype = pick("json", "json-charset", "text", "none")
 			if c < 2 && k < 2 {
 				// ... and in them a fully valid POST to the wallet-recover endpoint, once with the newest and once with an older token
@@ -148,6 +151,16 @@ func TestVerifGate(t *testing.T) {
 			case "expired":
 				tok, _ := newCSRFTokenWithTime(time.Now().Add(-time.Second))
 				req.Header.Set(CSRFHeaderName, tok)
+			case "forged-empty-key", "forged-other-key":
+				// a well-formed, unexpired token that this node did not issue: signed under the empty key / under somebody else's key
+				key := []byte{}
+				if r.Token == "forged-other-key" {
+					key = []byte("a key this node never had, sixty-four bytes long if that mattered..")
+				}
+				tj, _ := json.Marshal(&CSRFToken{Nonce: []byte("0123456789abcdef0123456789abcdef0123456789abcdef0123456789abcdef"), ExpiresAt: time.Now().Add(20 * time.Second)})
+				h := hmac.New(sha256.New, key)
+				_, _ = h.Write(tj)
+				req.Header.Set(CSRFHeaderName, base64.RawURLEncoding.EncodeToString(tj)+"."+base64.RawURLEncoding.EncodeToString(h.Sum(nil)))
 			case "garbage":
 				req.Header.Set(CSRFHeaderName, "not-a-token")
 			case "tampered":
